@@ -230,6 +230,13 @@ def run(ctx):
                                           (([0.25, 0.75], 20, 0.01), ([1.6, -0.9], 35, 0.004), ([0.1, 0.9], 60, 0.002), ([2.0, -1.5], 12, 0.05))):
         cases.append(dict(kind="ideal", pi=8000.0, pf=1000.0 + 2000.0 * j_, nx=nx_, times=np.arange(25 + 10 * j_) * dt_, grid="uniform", law=law_))
         cases.append(dict(kind="single", table=shipped_, table_kind="shipped", pi=8000.0, pf=1000.0 + 2000.0 * j_, nx=nx_, times=np.arange(25 + 10 * j_) * dt_ * 3, grid="uniform", override=True))
+    # time grids handed over in other containers (a masked array with nothing masked, a pandas Series with default labels, a list): the
+    # same simulation as for the plain array of the same numbers
+    def rep_tf(c_, form_, obs_):
+        ctx.violations.append(dict(what="a time grid given in another container is not simulated like the same numbers in a plain array", key="time-container",
+                                   input=dict(**rescorr.replay_payload(c_), time_form=form_), observed=obs_))
+    rescorr.time_container_forms([c for c in cases if c["kind"] == "single" and not c.get("reassign") and c.get("two_phase_sw") is None and not c.get("sweep")][:2]
+                                 + [c for c in cases if c["kind"] == "ideal" and not c.get("reassign")][:1], rep_tf)
     ev = impl_checks(ctx, cases)
     # the model (whose shift invariance is proved) against the implementation, on shifted grids
     shifted = []
